@@ -54,6 +54,10 @@ type c05MX struct {
 	Ext    bool   `json:"requiretls_ext"` // the server offers REQUIRETLS (go-smtp offers it over TLS only)
 	// "", down, greet421, greet554, mail451, mail550, rcpt450, rcpt550, data451, data554, dropdata
 	Fault string `json:"fault,omitempty"`
+	// the MX host name is an alias (CNAME, DNSSEC status = AD) of a canonical name that
+	// holds the address records and the TLSA facts; nothing is published under
+	// _25._tcp.<MX host name> itself
+	CNAME bool `json:"cname,omitempty"`
 }
 
 func c05FaultReply(fault string) func(stage, arg string) *smtp.SMTPError {
@@ -147,6 +151,12 @@ func c05World(c c05Case) (*peers.World, map[string]mockdns.Zone) {
 			w.Add(sc)
 			zones[host+"."] = mockdns.Zone{A: []string{"127.0.0.1"}, AD: mx.AD}
 			tn := "_25._tcp." + host + "."
+			if mx.CNAME {
+				canon := "canon-" + host
+				zones[host+"."] = mockdns.Zone{CNAME: canon + ".", AD: mx.AD}
+				zones[canon+"."] = mockdns.Zone{A: []string{"127.0.0.1"}, AD: mx.AD}
+				tn = "_25._tcp." + canon + "."
+			}
 			switch mx.TLSA {
 			case "none":
 			case "servfail":
@@ -701,7 +711,7 @@ func TestVerifC05(t *testing.T) {
 	log.DefaultLogger.Out = log.NopOutput{}
 	r := vx.Start("C05", "remote")
 	defer r.Finish()
-	r.Rule("real remote target (New+Init from configuration text; real mx_auth group with mtasts cache, dane, dnssec, local_policy; real pool and smtpconn) delivering histories of 1-3 messages to scripted MX servers; families: (A) one message, one MX: configurations {mtasts,dane,dnssec} x local_policy {absent, 3 TLS levels x 3 MX levels} x requiretls_override x relaxed_requiretls, message flag {none, REQUIRETLS, TLS-Required: No, quarantined}, MTA-STS {none, testing, enforce} x MX listed, MX RRset AD on/off, STARTTLS {not offered, valid, self-signed, wrong name, handshake failing}, TLSA {none, EE match, TA match, mismatch, unusable, SERVFAIL} x address AD on/off, REQUIRETLS offered or not, MX lookup SERVFAIL; (B) two MX candidates; (C) histories of 2-3 messages to one domain sharing the pool; (D) messages to two domains. Oracle: for every transaction in which a server received message content, the requirements of the statement computed from the facts and the TLS state seen by the server; discovery failures must yield temporary errors. Quick tier explores only cases whose irrelevant facts are canonical. Non-trivial: distinct cases in which some policy is in force and content was either transmitted or refused")
+	r.Rule("real remote target (New+Init from configuration text; real mx_auth group with mtasts cache, dane, dnssec, local_policy; real pool and smtpconn) delivering histories of 1-3 messages to scripted MX servers; families: (A) one message, one MX: configurations {mtasts,dane,dnssec} x local_policy {absent, 3 TLS levels x 3 MX levels} x requiretls_override x relaxed_requiretls, message flag {none, REQUIRETLS, TLS-Required: No, quarantined}, MTA-STS {none, testing, enforce} x MX listed, MX RRset AD on/off, STARTTLS {not offered, valid, self-signed, wrong name, handshake failing}, TLSA {none, EE match, TA match, mismatch, unusable, SERVFAIL} x address AD on/off, REQUIRETLS offered or not, MX lookup SERVFAIL; (G) the same for an MX host name that is a CNAME (TLSA facts at the canonical name, dane policy on); (B) two MX candidates; (C) histories of 2-3 messages to one domain sharing the pool; (D) messages to two domains. Oracle: for every transaction in which a server received message content, the requirements of the statement computed from the facts and the TLS state seen by the server; discovery failures must yield temporary errors. Quick tier explores only cases whose irrelevant facts are canonical. Non-trivial: distinct cases in which some policy is in force and content was either transmitted or refused")
 	if rp := r.Replay(); rp != nil {
 		var c c05Case
 		if json.Unmarshal(rp, &c) != nil {
@@ -808,6 +818,20 @@ func TestVerifC05(t *testing.T) {
 			d := one(c05MX{TLS: "valid", TLSA: "none", AD: true}, "", true)
 			d[0].MXFail = true
 			emit(c05Case{Cfg: cfg, Dom: d, Hist: []c05Msg{{Flag: f, Doms: []int{0}}}})
+		}
+	}
+
+	// (G) one message, one MX whose host name is a CNAME: TLSA facts live at the canonical name
+	family = "G"
+	for _, cfg := range c05Cfgs(c05LocalsFew, false) {
+		if !cfg.DANE {
+			continue
+		}
+		for _, f := range c05Flags {
+			for _, mx := range c05MXs([]string{"", "valid", "selfsigned"}, c05TLSAKinds, bools, []bool{false}, []bool{true}) {
+				mx.CNAME = true
+				emit(c05Case{Cfg: cfg, Dom: one(mx, "", true), Hist: []c05Msg{{Flag: f, Doms: []int{0}}}})
+			}
 		}
 	}
 
